@@ -158,7 +158,8 @@ Proof.
   { intros H; inversion H; subst. right; right; left. exists e, s1. auto 10. }
   apply sync_none in Es as (-> & Hi & Hc).
   intros H. right; right; right.
-  rewrite Hi in H. unfold hs_post.
+  rewrite Hi in H. replace (if NETIO_DROPS_STALE_INPUT then @nil N else []) with (@nil N) in H by (destruct NETIO_DROPS_STALE_INPUT; reflexivity).
+  unfold hs_post.
   destruct (handshake (o_eat o) (en (rd s)) (later t) closes) as [segs l'|a e' l'| | |];
     inversion H; subst; cbn [tag map app]; repeat split; auto.
 Qed.
